@@ -28,7 +28,10 @@ SettingsPool ==
      [builder |-> FALSE, convert |-> << [schema |-> PathS, ty |-> "crate::support::PathLike", impls |-> <<"FromStr">>] >>],
      [builder |-> FALSE, convert |-> << [schema |-> PathS, ty |-> "crate::support::ShowOnly", impls |-> <<"Display">>] >>],
      [builder |-> FALSE, convert |-> << [schema |-> PathS, ty |-> "crate::support::Num", impls |-> << >>] >>],
-     [builder |-> TRUE, convert |-> << [schema |-> PathS, ty |-> "crate::support::Both", impls |-> <<"FromStr", "Display">>] >>] >>
+     [builder |-> TRUE, convert |-> << [schema |-> PathS, ty |-> "crate::support::Both", impls |-> <<"FromStr", "Display">>] >>],
+     (* extra derives that are foreign macros sharing the short names of the built-in ones (they
+        generate nothing): the built-in derives must stay *)
+     [builder |-> FALSE, derives |-> <<"::fderive::Serialize", "::fderive::Deserialize", "::fderive::Debug", "::fderive::Clone">>] >>
 ConvIdx == {7, 8, 9, 10}
 
 (* ingestion histories for one document *)
@@ -45,7 +48,9 @@ Calls(doc, mode) ==
 
 (* states outside the tier's settings/mode ranges that every tier visits (recorded findings) *)
 ExtraStates == { <<"F4", "obj-null", 1, "titled-root">>, <<"F4", "enum-null", 1, "titled-root">>,
-                 <<"G2", "containers", 4, "root">> }
+                 <<"G2", "containers", 4, "root">>,
+                 <<"F5", "a-req", 11, "root">>, <<"F3", "ab", 11, "root">>, <<"F2", "min1", 11, "root">>,
+                 <<"F9", "int-open", 11, "root">> }
 Init == \/ d \in DOMAIN Universe /\ s = 1 /\ m = "root"
         \/ \E x \in ExtraStates :
               /\ d \in DOMAIN Universe /\ Universe[d].fam = x[1] /\ Universe[d].id = x[2]
